@@ -42,6 +42,29 @@ Section Relevant.
   Qed.
 End Relevant.
 
+(* [sub_acc w t]: w is t with some access events left out (all Lock / Unlock events kept).  The
+   automaton of Atomic.v accepts w whenever it accepts t: an access does not change its state. *)
+Inductive sub_acc : list ev -> list ev -> Prop :=
+| SA_nil : sub_acc [] []
+| SA_keep : forall e w t, sub_acc w t -> sub_acc (e :: w) (e :: t)
+| SA_skip : forall l b w t, sub_acc w t -> sub_acc w (EAcc l b :: t).
+
+Lemma sub_acc_refl : forall t, sub_acc t t.
+Proof. induction t; constructor; auto. Qed.
+
+Lemma sub_acc_app : forall w1 t1 w2 t2, sub_acc w1 t1 -> sub_acc w2 t2 -> sub_acc (w1 ++ w2) (t1 ++ t2).
+Proof. induction 1; intros H2; cbn [app]; try constructor; auto. Qed.
+
+Lemma ev_run_sub : forall m L w t, sub_acc w t -> forall s, ev_run m L s t <> None -> ev_run m L s w <> None.
+Proof.
+  induction 1 as [|e w t H IH|l b w t H IH]; intros s Hr.
+  - exact Hr.
+  - cbn [ev_run] in *. destruct (ev_step m L s e); [apply IH; exact Hr|exact Hr].
+  - cbn [ev_run ev_step] in Hr. apply IH.
+    destruct (watched L l); [|exact Hr].
+    destruct (r_held s && Nat.eqb (r_locks s) 1); [exact Hr|congruence].
+Qed.
+
 (* ---------------------------------------------------------------------------------------------- *)
 (* patterns *)
 Inductive pitem := PEv (e : ev) | PStar (alts : list (list ev)).
@@ -140,13 +163,14 @@ Section Finder.
   Variable L : list loc.
   Notation rel := (relevant m L).
 
-  (* consume the event e *)
+  (* consume the event e; an access the pattern does not ask for may be passed over *)
   Definition eat (e : ev) (pt : pat) : list pat :=
     if rel e then
       match pt with
       | PEv e' :: r => if ev_eq_dec e e' then [r] else []
       | _ => []
-      end
+      end ++
+      match e with EAcc _ _ => [pt] | _ => [] end
     else [pt].
 
   Definition plain (qs : list pat) : list out := map (fun q => (q, false, [])) qs.
@@ -246,26 +270,23 @@ Section Finder.
   Definition good_call (cf : string -> pat -> list pat) : Prop :=
     forall f pt q, In q (cf f pt) ->
       exists c, pt = c ++ q /\
-        forall w, pmatch c w -> exists body tr, lookup_body p f = Some body /\ bpath p body tr /\ filter rel tr = w.
+        forall w, pmatch c w -> exists body tr, lookup_body p f = Some body /\ bpath p body tr /\ sub_acc w (filter rel tr).
 
-  Lemma eat_spec : forall e pt q, In q (eat e pt) ->
-    (rel e = true /\ pt = PEv e :: q) \/ (rel e = false /\ q = pt).
-  Proof.
-    intros e pt q H. unfold eat in H. destruct (rel e) eqn:R.
-    - left. destruct pt as [|[e'|alts] r]; try contradiction.
-      destruct (ev_eq_dec e e') as [<-|]; [|contradiction]. destruct H as [<-|[]]. auto.
-    - right. destruct H as [<-|[]]. auto.
-  Qed.
-
-  (* one event instruction *)
   Lemma eat_sound : forall e pt q, In q (eat e pt) ->
-    exists c, pt = c ++ q /\ forall w, pmatch c w -> filter rel [e] = w.
+    exists c, pt = c ++ q /\ forall w, pmatch c w -> sub_acc w (filter rel [e]).
   Proof.
-    intros e pt q H. destruct (eat_spec _ _ _ H) as [[R ->]|[R ->]].
-    - exists [PEv e]. split; [reflexivity|]. intros w Hw.
-      apply pmatch_ev_inv in Hw. destruct Hw as [w' [-> Hw]]. apply pmatch_nil_inv in Hw. subst w'.
-      cbn [filter]. rewrite R. reflexivity.
-    - exists []. split; [reflexivity|]. intros w Hw. inversion Hw; subst. cbn [filter]. rewrite R. reflexivity.
+    intros e pt q H. unfold eat in H. cbn [filter]. destruct (rel e) eqn:R.
+    - apply in_app_iff in H. destruct H as [H|H].
+      + destruct pt as [|[e'|alts] r]; try contradiction.
+        destruct (ev_eq_dec e e') as [<-|]; [|contradiction]. destruct H as [<-|[]].
+        exists [PEv e]. split; [reflexivity|]. intros w Hw.
+        apply pmatch_ev_inv in Hw. destruct Hw as [w' [-> Hw]]. apply pmatch_nil_inv in Hw. subst w'.
+        apply sub_acc_refl.
+      + destruct e as [m'|m'|l b]; try contradiction. destruct H as [<-|[]].
+        exists []. split; [reflexivity|]. intros w Hw. apply pmatch_nil_inv in Hw. subst w.
+        constructor. constructor.
+    - destruct H as [<-|[]]. exists []. split; [reflexivity|]. intros w Hw.
+      apply pmatch_nil_inv in Hw. subst w. constructor.
   Qed.
 
   Section BodySound.
@@ -274,10 +295,10 @@ Section Finder.
 
     Definition Pi (i : instr) : Prop :=
       forall pt q r ds, In (q, r, ds) (mt_i cf i pt) ->
-        exists c, pt = c ++ q /\ forall w, pmatch c w -> exists tr, ipath p i tr ds r /\ filter rel tr = w.
+        exists c, pt = c ++ q /\ forall w, pmatch c w -> exists tr, ipath p i tr ds r /\ sub_acc w (filter rel tr).
     Definition Pl (code : list instr) : Prop :=
       forall pt q r ds, In (q, r, ds) (mt_l cf code pt) ->
-        exists c, pt = c ++ q /\ forall w, pmatch c w -> exists tr, lpath p code tr ds r /\ filter rel tr = w.
+        exists c, pt = c ++ q /\ forall w, pmatch c w -> exists tr, lpath p code tr ds r /\ sub_acc w (filter rel tr).
 
     Lemma plain_in : forall qs q r ds, In (q, r, ds) (plain qs) -> In q qs /\ r = false /\ ds = [].
     Proof.
@@ -287,15 +308,15 @@ Section Finder.
 
     Lemma eps_case : forall i pt q r ds, In (q, r, ds) [(pt, false, [])] ->
       ipath p i [] [] false ->
-      exists c, pt = c ++ q /\ forall w, pmatch c w -> exists tr, ipath p i tr ds r /\ filter rel tr = w.
+      exists c, pt = c ++ q /\ forall w, pmatch c w -> exists tr, ipath p i tr ds r /\ sub_acc w (filter rel tr).
     Proof.
       intros i pt q r ds [E|[]] Hp. inversion E; subst. exists []. split; [reflexivity|].
-      intros w Hw. inversion Hw; subst. exists []. split; [exact Hp|reflexivity].
+      intros w Hw. inversion Hw; subst. exists []. split; [exact Hp|constructor].
     Qed.
 
     Lemma ev_case : forall i e pt q r ds, In (q, r, ds) (plain (eat e pt)) ->
       ipath p i [e] [] false ->
-      exists c, pt = c ++ q /\ forall w, pmatch c w -> exists tr, ipath p i tr ds r /\ filter rel tr = w.
+      exists c, pt = c ++ q /\ forall w, pmatch c w -> exists tr, ipath p i tr ds r /\ sub_acc w (filter rel tr).
     Proof.
       intros i e pt q r ds H Hp. apply plain_in in H. destruct H as [H [-> ->]].
       destruct (eat_sound _ _ _ H) as [c [E Hc]]. exists c. split; [exact E|].
@@ -305,11 +326,11 @@ Section Finder.
     Lemma star_loop : forall b alts, Pl b ->
       forallb (fun w => existsb is_done (mt_l cf b (map PEv w))) alts = true ->
       forall c w, pmatch c w -> c = [PStar alts] ->
-        exists tr, ipath p (ILoop b) tr [] false /\ filter rel tr = w.
+        exists tr, ipath p (ILoop b) tr [] false /\ sub_acc w (filter rel tr).
     Proof.
       intros b alts Hb Hall c w H.
       induction H as [|e c w H IH|alts' c w H IH|alts' c a w Ha H IH]; intros E; try discriminate.
-      - injection E as -> ->. inversion H; subst. exists []. split; [constructor|reflexivity].
+      - injection E as -> ->. inversion H; subst. exists []. split; [constructor|constructor].
       - injection E as -> ->. destruct (IH eq_refl) as [tr2 [Hp2 Hf2]].
         rewrite forallb_forall in Hall. specialize (Hall a Ha). apply existsb_exists in Hall.
         destruct Hall as [[[q r] ds] [Hin Hd]].
@@ -318,7 +339,7 @@ Section Finder.
         destruct (Hc1 a (pmatch_word a)) as [tr1 [Hp1 Hf1]].
         exists (tr1 ++ tr2). split.
         + change (@nil ditem) with (@nil ditem ++ []). eapply IP_loop_iter; eassumption.
-        + rewrite filter_app, Hf1, Hf2. reflexivity.
+        + rewrite filter_app. apply sub_acc_app; assumption.
     Qed.
 
     Lemma seq_sound : forall i k, Pi i -> Pl k -> Pl (i :: k).
@@ -335,7 +356,7 @@ Section Finder.
         exists (c1 ++ c2). split; [rewrite app_assoc; reflexivity|].
         intros w Hw. destruct (pmatch_split _ _ Hw c1 c2 eq_refl) as (w1 & w2 & -> & Hw1 & Hw2).
         destruct (Hc1 w1 Hw1) as [tr1 [Hp1 Hf1]]. destruct (Hc2 w2 Hw2) as [tr2 [Hp2 Hf2]].
-        exists (tr1 ++ tr2). split; [|rewrite filter_app, Hf1, Hf2; reflexivity].
+        exists (tr1 ++ tr2). split; [|rewrite filter_app; apply sub_acc_app; assumption].
         apply LP_seq; assumption.
     Qed.
 
@@ -343,15 +364,15 @@ Section Finder.
     Proof.
       assert (Hnil : Pl []).
       { intros pt q r ds [E|[]]. inversion E; subst. exists []. split; [reflexivity|].
-        intros w Hw. inversion Hw; subst. exists []. split; [constructor|reflexivity]. }
+        intros w Hw. inversion Hw; subst. exists []. split; [constructor|constructor]. }
       assert (HI : forall i, Pi i).
       { apply (instr_nind Pi Pl Hnil seq_sound); unfold Pi; intros; rewrite mt_i_eq in *; cbn [mt1] in *.
         - eapply ev_case; [eassumption|constructor].
         - eapply ev_case; [eassumption|constructor].
         - destruct H as [E|[]]. inversion E; subst. exists []. split; [reflexivity|].
-          intros w Hw. inversion Hw; subst. exists []. split; [constructor|reflexivity].
+          intros w Hw. inversion Hw; subst. exists []. split; [constructor|constructor].
         - destruct H as [E|[]]. inversion E; subst. exists []. split; [reflexivity|].
-          intros w Hw. inversion Hw; subst. exists []. split; [constructor|reflexivity].
+          intros w Hw. inversion Hw; subst. exists []. split; [constructor|constructor].
         - eapply ev_case; [eassumption|constructor].
         - eapply ev_case; [eassumption|constructor].
         - eapply eps_case; [eassumption|constructor].
@@ -372,41 +393,41 @@ Section Finder.
         - (* loop *)
           unfold loop_out in H0. destruct H0 as [E|H0].
           + inversion E; subst. exists []. split; [reflexivity|].
-            intros w Hw. inversion Hw; subst. exists []. split; [constructor|reflexivity].
+            intros w Hw. inversion Hw; subst. exists []. split; [constructor|constructor].
           + destruct pt as [|[e|alts] rest]; try contradiction.
             destruct (forallb _ alts) eqn:Hall; [|contradiction].
             destruct H0 as [E|[]]. inversion E; subst.
             exists [PStar alts]. split; [reflexivity|].
             intros w Hw. exact (star_loop b alts H Hall _ _ Hw eq_refl).
         - destruct H as [E|[]]. inversion E; subst. exists []. split; [reflexivity|].
-          intros w Hw. inversion Hw; subst. exists []. split; [constructor|reflexivity]. }
+          intros w Hw. inversion Hw; subst. exists []. split; [constructor|constructor]. }
       split; [exact HI|]. intros l. induction l as [|i k IH]; [exact Hnil|]. apply seq_sound; auto.
     Qed.
 
     Lemma run_ds_sound : forall ds pt q, In q (run_ds cf ds pt) ->
-      exists c, pt = c ++ q /\ forall w, pmatch c w -> exists tr, dpath p ds tr /\ filter rel tr = w.
+      exists c, pt = c ++ q /\ forall w, pmatch c w -> exists tr, dpath p ds tr /\ sub_acc w (filter rel tr).
     Proof.
       induction ds as [|[m'|f] t IH]; intros pt q H; cbn [run_ds] in H.
       - destruct H as [<-|[]]. exists []. split; [reflexivity|].
-        intros w Hw. inversion Hw; subst. exists []. split; [constructor|reflexivity].
+        intros w Hw. inversion Hw; subst. exists []. split; [constructor|constructor].
       - apply in_flat_map in H. destruct H as [p1 [H1 H2]].
         destruct (eat_sound _ _ _ H1) as [c1 [E1 Hc1]]. destruct (IH _ _ H2) as [c2 [E2 Hc2]]. subst.
         exists (c1 ++ c2). split; [rewrite app_assoc; reflexivity|].
         intros w Hw. destruct (pmatch_split _ _ Hw c1 c2 eq_refl) as (w1 & w2 & -> & Hw1 & Hw2).
         destruct (Hc2 w2 Hw2) as [tr2 [Hp2 Hf2]].
         exists (EUnlock m' :: tr2). split; [constructor; exact Hp2|].
-        change (EUnlock m' :: tr2) with ([EUnlock m'] ++ tr2). rewrite filter_app, (Hc1 w1 Hw1), Hf2. reflexivity.
+        change (EUnlock m' :: tr2) with ([EUnlock m'] ++ tr2). rewrite filter_app. apply sub_acc_app; [apply Hc1; exact Hw1|exact Hf2].
       - apply in_flat_map in H. destruct H as [p1 [H1 H2]].
         destruct (Hcf _ _ _ H1) as [c1 [E1 Hc1]]. destruct (IH _ _ H2) as [c2 [E2 Hc2]]. subst.
         exists (c1 ++ c2). split; [rewrite app_assoc; reflexivity|].
         intros w Hw. destruct (pmatch_split _ _ Hw c1 c2 eq_refl) as (w1 & w2 & -> & Hw1 & Hw2).
         destruct (Hc1 w1 Hw1) as (body & tr1 & Hl & Hb & Hf1). destruct (Hc2 w2 Hw2) as [tr2 [Hp2 Hf2]].
         exists (tr1 ++ tr2). split; [econstructor; eassumption|].
-        rewrite filter_app, Hf1, Hf2. reflexivity.
+        rewrite filter_app. apply sub_acc_app; assumption.
     Qed.
 
     Lemma finish_sound : forall body pt q, In q (finish cf (mt_l cf body pt)) ->
-      exists c, pt = c ++ q /\ forall w, pmatch c w -> exists tr, bpath p body tr /\ filter rel tr = w.
+      exists c, pt = c ++ q /\ forall w, pmatch c w -> exists tr, bpath p body tr /\ sub_acc w (filter rel tr).
     Proof.
       intros body pt q H. unfold finish in H. apply in_flat_map in H. destruct H as [[[p1 r1] d1] [H1 H2]].
       destruct (proj2 body_sound body _ _ _ _ H1) as [c1 [E1 Hc1]].
@@ -415,7 +436,7 @@ Section Finder.
       intros w Hw. destruct (pmatch_split _ _ Hw c1 c2 eq_refl) as (w1 & w2 & -> & Hw1 & Hw2).
       destruct (Hc1 w1 Hw1) as [tr1 [Hp1 Hf1]]. destruct (Hc2 w2 Hw2) as [tr2 [Hp2 Hf2]].
       exists (tr1 ++ tr2). split; [econstructor; eassumption|].
-      rewrite filter_app, Hf1, Hf2. reflexivity.
+      rewrite filter_app. apply sub_acc_app; assumption.
     Qed.
   End BodySound.
 
@@ -430,7 +451,7 @@ Section Finder.
 
   Theorem covers_sound : forall fuel f pt, covers fuel f pt = true ->
     forall w, pmatch pt w ->
-      exists body tr, lookup_body p f = Some body /\ bpath p body tr /\ filter rel tr = w.
+      exists body tr, lookup_body p f = Some body /\ bpath p body tr /\ sub_acc w (filter rel tr).
   Proof.
     intros fuel f pt H w Hw. unfold covers in H. apply existsb_exists in H. destruct H as [q [Hin Hq]].
     destruct q; [|discriminate].
